@@ -95,8 +95,18 @@ def truth(v):
 
 def same(a, b):
     """identity comparison: True / False / None(unknown)"""
-    if a[0] in ('opaque', 'param') or b[0] in ('opaque', 'param'):
+    if a[0] == 'opaque' or b[0] == 'opaque':
         return None
+    if a[0] == 'param' or b[0] == 'param':
+        # the arguments of the callbacks are objects (tests, subtests): never None / a constant;
+        # the same parameter name within one test is the same object, 'test' and 'subtest' are
+        # different objects; an argument remembered from an earlier test ('@old') is unknown
+        if a[0] != b[0]:
+            return False if (a[0] in ('none', 'bool', 'int', 'str') or
+                             b[0] in ('none', 'bool', 'int', 'str')) else None
+        if a[1].endswith('@old') or b[1].endswith('@old'):
+            return None
+        return a[1] == b[1]
     if a[0] != b[0]:
         return False
     if a[0] == 'none':
